@@ -14,7 +14,8 @@ REG = dict(category="model_checking",
     "infinity with sign bit, scalars >= n and +N re-encodings of the right scalar, trailing/truncated bytes, non-power-of-two sizes, generator-count mismatch, every verifier scratch size "
     "from 0 past the need, prover with NULL and useless scratch, transcript prefixes across SHA block boundaries; generator-list encodings of length 33k, 33k+-1 with malformed points "
     "and heap accounting around the parser (counting malloc wrapper; sanitizer allocator statistics + LeakSanitizer pass in the asan build). In the order-13 test group (generators "
-    "are inputs there too) every witness of the (2,1)/(1,2) shapes and every proof string built from subgroup points is enumerated: the only place where accepted proofs exist that "
+    "are inputs there too) the witnesses of the (2,1)/(1,2) shapes and the proof strings built from subgroup points are enumerated (completely in the thorough tier, all points and a "
+    "thinned scalar set in the quick tier): the only place where accepted proofs exist that "
     "no prover produced. All records are replayed on the real (static) functions; implementation traces from a seeded driver are decided by TLC.",
     note="Trusted: TLC, BigInteger/MessageDigest overrides, the harness interpreter, the malloc-counting wrapper / sanitizer statistics. Generator points are inputs of this property "
     "(measured from the implementation; their derivation from the seed is not re-derived here): decided for them are determinism, prefix consistency, canonical encoding and exact "
@@ -166,7 +167,7 @@ def run(chk):
     # X: the order-13 test group -- every witness of the (2,1)/(1,2) shapes, every proof string of subgroup points for one statement
     recs = chk.generate(MODULE, "C19_tiny13.cfg", "tiny13", timeout=6000 if quick else 14000)
     chk.replay(recs, "tiny13", "exhaustive order-13 group")
-    chk.exhaustive = True
+    chk.exhaustive = not quick        # the quick tier thins out the scalar values; the thorough tier enumerates completely
     # G: generated records
     recs = chk.generate(MODULE, "C19_gen.cfg", "gen", env={"C19_GENS": gpath}, timeout=6000 if quick else 14000)
     for v in (["std", "asan"] if quick else ["std", "asan", "verify", "i64", "noasm"]):
@@ -180,7 +181,7 @@ def run(chk):
     events += gens_driver(chk, gens257, counts[:9], 40, "asan")
     chk.validate(events, MODULE, "C19_trace.cfg", "driver", timeout=6000 if quick else 14000)
     return chk.finish(LEVEL,
-        "X: order-13 group, every witness (n,l) in Z_13^3 and every proof string of subgroup points/scalar encodings for one statement (invariant: accepted iff the paper's reduction "
+        "X: order-13 group, witnesses (n,l) in Z_13^3 and proof strings of subgroup points/scalar encodings for one statement (complete in the thorough tier; invariant: accepted iff the paper's reduction "
         "accepts; honest always accepted); G: TLC enumerates Cases of C19_Bppp.tla (statements by size pair x vector pattern x rho, honest commit/prove/verify triples, 38 kinds of alteration, every "
         "single-bit flip of one proof, every scratch size, transcript prefix lengths, generator-list encodings) with the invariants InvProve (completeness), InvVerify "
         "(equation = reduction; honest accepted; altered rejected) and InvGens (round trip); every record is executed on the real functions (std and asan builds). "
